@@ -244,6 +244,22 @@ pub fn reference(seed: u64, ntracks: usize, hist: &[Op]) -> Vec<Vec<RefSample>> 
     out
 }
 
+/// The sub-history of calls the muxer accepted (`calls` as returned by `mux_into` for `ntracks` add_track calls).
+pub fn accepted_ops(calls: &[std::result::Result<(), String>], ntracks: usize, hist: &[Op]) -> Vec<Op> {
+    hist.iter().enumerate().filter(|(i, _)| calls.get(1 + ntracks + i).map(|r| r.is_ok()).unwrap_or(false)).map(|(_, o)| *o).collect()
+}
+
+/// Does the statement-level model allow the muxer to refuse this write on a valid track?  Only when the track's
+/// duration in movie-timescale units would no longer fit in 64 bits.
+pub fn model_may_reject(movie: &MovieSpec, accepted_so_far: &[Op], op: &Op) -> bool {
+    let t = movie.tracks[op.track as usize - 1].timescale as u128;
+    if t == 0 {
+        return true;
+    }
+    let sum: u128 = accepted_so_far.iter().filter(|o| o.track == op.track).map(|o| o.dur as u128).sum::<u128>() + op.dur as u128;
+    sum * movie.timescale as u128 / t > u64::MAX as u128
+}
+
 #[derive(Debug)]
 pub struct MuxOut {
     pub bytes: Vec<u8>,
@@ -272,12 +288,10 @@ pub fn mux_into<W: Write + Seek>(w: W, seed: u64, movie: &MovieSpec, hist: &[Op]
         }
         let mut written = vec![0usize; movie.tracks.len()];
         for op in hist.iter() {
-            let k = if op.track >= 1 && op.track as usize <= written.len() {
-                written[op.track as usize - 1] += 1;
-                written[op.track as usize - 1] - 1
-            } else {
-                0
-            };
+            // payload index = number of samples the muxer has ACCEPTED on that track so far, so that replaying only the
+            // accepted calls of a history feeds the muxer the very same samples
+            let valid = op.track >= 1 && op.track as usize <= written.len();
+            let k = if valid { written[op.track as usize - 1] } else { 0 };
             let s = Mp4Sample {
                 start_time: 0,
                 duration: op.dur,
@@ -285,7 +299,11 @@ pub fn mux_into<W: Write + Seek>(w: W, seed: u64, movie: &MovieSpec, hist: &[Op]
                 is_sync: op.sync,
                 bytes: Bytes::from(payload(seed, k, op.track, op.size)),
             };
-            calls.push(wr.write_sample(op.track, &s).map_err(|e| format!("{:?}", e)));
+            let r = wr.write_sample(op.track, &s).map_err(|e| format!("{:?}", e));
+            if r.is_ok() && valid {
+                written[op.track as usize - 1] += 1;
+            }
+            calls.push(r);
         }
         calls.push(wr.write_end().map_err(|e| format!("{:?}", e)));
         Ok((wr.into_writer(), calls))
